@@ -750,6 +750,9 @@ func storeDrive(args []string) int {
 		hs := storeInit()
 		w.Encode(map[string]interface{}{"sess": s, "op": map[string]interface{}{"op": "reset"}, "addrs": addrs,
 			"res": "ok", "post": projectStore(hs, addrs, comps)})
+		// every fifth session works on a LONG list (12 sub-configs under l: two-digit positions), removing and
+		// writing all along it
+		long := *merges && rng.Intn(5) == 0
 		for i := 0; i < *steps; i++ {
 			op := storeOp{H: 1 + rng.Intn(len(hs)), Sep: true}
 			nm := storeDriveNames[rng.Intn(len(storeDriveNames))]
@@ -758,7 +761,23 @@ func storeDrive(args []string) int {
 			if len(nm) == 0 && op.Idx < 0 {
 				op.Idx = rng.Intn(3)
 			}
+			if long && i > 0 && rng.Intn(2) == 0 {
+				op.H, op.Name, op.Idx = 1, []seg{{"l", -1}}, rng.Intn(13)
+			}
 			switch k := rng.Intn(20); {
+			case long && i == 0:
+				op.H, op.Op, op.Name, op.Idx, op.Pol = 1, "merge", nil, 0, "default"
+				l := &frag{F: "l"}
+				for j := 0; j < 12; j++ {
+					l.L = append(l.L, &frag{F: "m", M: map[string]*frag{"v": {F: "p", Ty: "s", V: "1"}}})
+				}
+				op.Fr = &frag{F: "m", M: map[string]*frag{"l": l}}
+			case k == 17 && *merges && rng.Intn(3) == 0:
+				// a config merged into ITSELF (the source is read as it was when the call began)
+				op.Op = "merge"
+				op.Name, op.Idx = nil, 0
+				op.Pol = pols[rng.Intn(len(pols))]
+				op.Fr = &frag{F: "cfg", H: op.H}
 			case k < 8:
 				op.Op, op.Ty, op.V = "set", "s", []string{"1", "2", "x"}[rng.Intn(3)]
 			case k < 12:
